@@ -575,7 +575,7 @@ def run_shard(desc):
             cases.append(var)
     reqs = []
     for var in cases:
-        reqs += [lc.calc_case(unmarked(var), record=kind.startswith("event")), lc.calc_case(var)]
+        reqs += [lc.calc_case(unmarked(var), record=kind.startswith("event"), front=True), lc.calc_case(var, front=True)]
     obs = probe().run(reqs)
     for i, var in enumerate(cases):
         oa, ob = obs[2 * i], obs[2 * i + 1]
@@ -594,7 +594,7 @@ def run_shard(desc):
 def replay(case):
     var = case["txs"]
     _, judge = KINDS[case["op"]]
-    oa, ob = probe().run([lc.calc_case(unmarked(var), record=case["op"].startswith("event")), lc.calc_case(var)])
+    oa, ob = probe().run([lc.calc_case(unmarked(var), record=case["op"].startswith("event"), front=True), lc.calc_case(var, front=True)])
     oa_brief = {k: v for k, v in oa.items() if k != "snapshots"}
     return judge(var, oa, ob, Counter()), {"without": oa_brief, "with": ob}
 
